@@ -16,9 +16,15 @@
 (*          a definition is a function field name |-> declared type;       *)
 (*   inst : sequence of instance slots [live, type, ver, f]; f maps keys   *)
 (*          to abstract values (only the TYPE of a value matters here).    *)
+(*   ptrs : sequence of pointers bound to variables [slot, pv]: the        *)
+(*          instance pointed to and the version of its struct that was     *)
+(*          current when the pointer was taken.                            *)
 (* Operations: declare / redeclare, construct, decode (JSON / msgpack),    *)
-(* write a field (through any route), assign one element of the slice a    *)
-(* field holds, assign a whole instance through a pointer.                 *)
+(* encode an instance and decode the document again (round trip), write a  *)
+(* field (through any route), assign one element of the slice a field      *)
+(* holds, take a pointer to an instance and keep it in a variable, assign  *)
+(* a whole instance through a pointer (fresh, held in a field, or taken    *)
+(* earlier and kept in a variable).                                        *)
 (* Every operation is a pure operator Outcomes(st, op): the set of         *)
 (* [s |-> next state, r |-> "ok"|"err"|"panic", d |-> deviation id or ""]  *)
 (* the property allows.  The model checker (Next) and the trace validator  *)
@@ -52,8 +58,11 @@ CONSTANTS Names,      \* struct names
           Devs        \* enabled named deviations (known defects of the code); {} = the property
 
 EmptyF == [k \in {} |-> <<"nil">>]
-Dead   == [live |-> FALSE, type |-> "", ver |-> 0, f |-> EmptyF]
-InitSt == [reg |-> [n \in Names |-> <<>>], inst |-> <<>>]
+(* born = the version under which the instance was created; ver = the      *)
+(* version whose definition it is subject to.  The property says ver =     *)
+(* born for ever; only deviation derefset-adopts-definition changes ver.   *)
+Dead   == [live |-> FALSE, type |-> "", ver |-> 0, born |-> 0, f |-> EmptyF]
+InitSt == [reg |-> [n \in Names |-> <<>>], inst |-> <<>>, ptrs |-> <<>>]
 
 Live(st, k)     == k \in 1..Len(st.inst) /\ st.inst[k].live
 Declared(st, N) == N \in Names /\ Len(st.reg[N]) > 0
@@ -130,7 +139,7 @@ Build(st, N, args) ==
 ArgsF(st, args) ==
     [k \in {<<"sym", args[j][1]>> : j \in 1..Len(args)} |->
         LET j == CHOOSE j \in 1..Len(args) : args[j][1] = k[2] IN Val(st, args[j][2])]
-NewInst(st, N, f) == [live |-> TRUE, type |-> N, ver |-> CurVer(st, N), f |-> f]
+NewInst(st, N, f) == [live |-> TRUE, type |-> N, ver |-> CurVer(st, N), born |-> CurVer(st, N), f |-> f]
 Push(st, i) == [st EXCEPT !.inst = Append(@, i)]
 
 (* every construction attempt takes the next slot; a rejected one leaves it dead *)
@@ -163,8 +172,12 @@ Decode(st, o) ==
 (* valued one for the routes in PtrHopRoutes).  Result: 0 = no such        *)
 (* instance (an error), -1 = an anonymous instance (not tracked).          *)
 PtrHopRoutes == {"pfhset", "pfderef", "pfield"}
+(* routes that go through a pointer variable: o.slot is an index of ptrs   *)
+PvarRoutes   == {"pvar", "pvhset", "pvderef"}
 Target(st, o) ==
-    IF ~Live(st, o.slot) THEN 0
+    IF o.route \in PvarRoutes
+    THEN IF o.slot \in 1..Len(st.ptrs) /\ Live(st, st.ptrs[o.slot].slot) THEN st.ptrs[o.slot].slot ELSE 0
+    ELSE IF ~Live(st, o.slot) THEN 0
     ELSE IF o.hop = "" THEN o.slot
     ELSE LET h == st.inst[o.slot]
              key == <<"sym", o.hop>>
@@ -197,21 +210,75 @@ Write(st, o) ==
                  ELSE (IF c # "no"  THEN {Out(set, "ok", "")} ELSE {})
                       \cup (IF c # "yes" THEN {Err(st)} ELSE {})
 
-(* (derefSet pointer-to-instance (N args...)): whole-instance assignment.  *)
-(* Accepted only for an instance of the same struct; the target then holds *)
-(* a copy of the payload and is subject to the payload's definition.  When *)
-(* the two were made under different versions of N both outcomes are       *)
-(* allowed.                                                                *)
+(* (def p (& x)): a pointer to the instance in o.slot is kept in the next  *)
+(* pointer variable (a failed attempt leaves that variable unusable).      *)
+NoPtr == [slot |-> 0, pv |-> 0]
+Takeptr(st, o) ==
+    IF Live(st, o.slot)
+    THEN {Out([st EXCEPT !.ptrs = Append(@, [slot |-> o.slot,
+                                             pv |-> CurVer(st, st.inst[o.slot].type)])], "ok", "")}
+    ELSE {Out([st EXCEPT !.ptrs = Append(@, NoPtr)], "err", "")}
+
+(* (derefSet pointer-to-instance (N args...)): whole-instance assignment;  *)
+(* the payload is a fresh instance of N, built under the current version.  *)
+(* Accepted only for a target of the same struct AND the same definition:  *)
+(* "instances keep the definition that was in force when they were         *)
+(* created", so a target made under another definition of N can neither    *)
+(* take over the payload's definition nor hold fields its own definition   *)
+(* does not declare -- the assignment is refused, whenever and however the *)
+(* pointer was obtained.  (Two versions with equal definitions: both       *)
+(* outcomes allowed.)  A pointer that is older than the current version of *)
+(* N, or that may be, can always be refused.                               *)
+(* Deviation derefset-adopts-definition (code: DerefFunction compares the  *)
+(* type registered under the name when the pointer was taken with the type *)
+(* registered under the payload's name now): a pointer taken after the     *)
+(* redeclaration is accepted, the target holds the payload and is from     *)
+(* then on subject to the current definition.                              *)
 Derefset(st, o) ==
     LET t == Target(st, o)
         b == Build(st, o.name, o.args)
     IN IF t = -1 THEN Unchecked(st)
        ELSE IF t = 0 \/ "ok" \notin b THEN {Err(st)}
        ELSE IF st.inst[t].type # o.name THEN {Err(st)}
-       ELSE LET same == st.inst[t].ver = CurVer(st, o.name)
-                okS  == [st EXCEPT !.inst[t].f = ArgsF(st, o.args),
-                                   !.inst[t].ver = CurVer(st, o.name)]
-            IN {Out(okS, "ok", "")} \cup (IF ~same \/ "err" \in b THEN {Err(st)} ELSE {})
+       ELSE LET i       == st.inst[t]
+                cur     == CurVer(st, o.name)
+                fresh   == o.route = "pvar" => st.ptrs[o.slot].pv = cur
+                sameDef == st.reg[o.name][i.ver] = st.reg[o.name][cur]
+                okS     == [st EXCEPT !.inst[t].f = ArgsF(st, o.args)]
+                devS    == [st EXCEPT !.inst[t].f = ArgsF(st, o.args), !.inst[t].ver = cur]
+                dev     == "derefset-adopts-definition"
+            IN (IF sameDef THEN {Out(okS, "ok", "")} ELSE {})
+               \cup (IF ~sameDef /\ dev \in Devs /\ fresh THEN {Out(devS, "ok", dev)} ELSE {})
+               \cup (IF "err" \in b \/ i.ver # cur \/ i.born # i.ver \/ ~fresh THEN {Err(st)} ELSE {})
+
+(* (unjson (json x)), (unmsgpack (msgpack x)): the instance in o.slot is    *)
+(* encoded and the document decoded again: a construction of the same      *)
+(* struct, under the current version, from the fields the instance holds   *)
+(* (nested instances come back as fresh ones).  The encodings have no form *)
+(* for a pointer.  Where a nested instance was made under an older version *)
+(* or holds more than plain values the outcome is left open.               *)
+Simple(v) == v[1] \in {"base", "slice", "eslice", "nil"}
+RtVal(st, v) ==
+    CASE v[1] = "inst" -> <<"anon", st.inst[v[2]].type, CurVer(st, st.inst[v[2]].type)>>
+      [] v[1] = "anon" -> <<"anon", v[2], CurVer(st, v[2])>>
+      [] OTHER -> v
+RtSure(st, v) ==
+    CASE v[1] = "inst" -> LET j == st.inst[v[2]] IN
+                          j.ver = CurVer(st, j.type) /\ \A k \in DOMAIN j.f : Simple(j.f[k])
+      [] v[1] = "anon" -> v[3] = CurVer(st, v[2])
+      [] OTHER -> Simple(v)
+Roundtrip(st, o) ==
+    LET errO == Out(Push(st, Dead), "err", "") IN
+    IF ~Live(st, o.slot) THEN {errO}
+    ELSE LET i   == st.inst[o.slot]
+             def == st.reg[i.type][CurVer(st, i.type)]
+             f2  == [k \in DOMAIN i.f |-> RtVal(st, i.f[k])]
+             c   == [k \in DOMAIN i.f |->
+                        IF f2[k][1] \in {"mslice", "missing"} THEN "either" ELSE Check(st, def, k, f2[k])]
+             okO == Out(Push(st, NewInst(st, i.type, f2)), "ok", "")
+         IN IF \E k \in DOMAIN i.f : i.f[k][1] \in {"ptr", "aptr"} THEN {errO}
+            ELSE (IF \A k \in DOMAIN i.f : c[k] # "no" THEN {okO} ELSE {})
+                 \cup (IF \E k \in DOMAIN i.f : c[k] # "yes" \/ ~RtSure(st, i.f[k]) THEN {errO} ELSE {})
 
 (* element assignment into the slice a field holds: {x.f[i] = v},           *)
 (* (aset (:f x) i v).  The slice stays a value of the declared type only   *)
@@ -243,6 +310,8 @@ Outcomes(st, o) ==
       [] o.op = "decode"    -> Decode(st, o)
       [] o.op = "write"     -> Write(st, o)
       [] o.op = "derefset"  -> Derefset(st, o)
+      [] o.op = "takeptr"   -> Takeptr(st, o)
+      [] o.op = "roundtrip" -> Roundtrip(st, o)
       [] o.op = "elem"      -> Elem(st, o)
 
 (* ---- what the property says, as predicates on the machine ---- *)
@@ -259,7 +328,7 @@ CONSTANTS DefPalette,   \* [Names -> set of field lists]
           BaseVals,     \* values that need no instance
           FieldNames,   \* field names tried in writes / constructions (declared or not)
           Routes,       \* <<route, hop, key kind>> triples tried
-          MaxSlots, MaxVer, MaxSteps
+          MaxSlots, MaxPtrs, MaxVer, MaxSteps
 VARIABLES st, res, steps
 vars == <<st, res, steps>>
 
@@ -285,6 +354,14 @@ Ops(s) ==
              v \in {v \in BaseVals : v[1] = "base"}}
     \cup {[op |-> "derefset", route |-> r[1], hop |-> r[2], slot |-> k, name |-> n, args |-> a] :
              r \in {<<"addr", "">>, <<"pfield", "fp">>}, k \in 1..Len(s.inst), n \in Names, a \in Arg1(s)}
+    \cup (IF Len(s.inst) < MaxSlots
+          THEN {[op |-> "roundtrip", codec |-> "json", slot |-> k] : k \in 1..Len(s.inst)} ELSE {})
+    \cup (IF Len(s.ptrs) < MaxPtrs
+          THEN {[op |-> "takeptr", slot |-> k] : k \in 1..Len(s.inst)} ELSE {})
+    \cup {[op |-> "derefset", route |-> "pvar", hop |-> "", slot |-> j, name |-> n, args |-> a] :
+             j \in 1..Len(s.ptrs), n \in Names, a \in Arg1(s)}
+    \cup {[op |-> "write", route |-> "pvhset", hop |-> "", slot |-> j, key |-> <<"sym", fn>>, v |-> v] :
+             j \in 1..Len(s.ptrs), fn \in FieldNames, v \in Vals(s)}
 
 Init == st = InitSt /\ res = "ok" /\ steps = 0
 Next == /\ steps < MaxSteps
@@ -297,14 +374,14 @@ Spec == Init /\ [][Next]_vars
 WellTyped == WellTypedSt(st)
 (* a step that is not accepted changes no instance and no definition *)
 RejectedUnchanged == [][res' # "ok" => LiveView(st') = LiveView(st) /\ st'.reg = st.reg]_vars
-(* instances stay alive, keep their struct, and keep their definition      *)
-(* unless a whole-instance assignment replaced them by a current-version   *)
-(* value; definitions are never altered, only superseded                   *)
+(* instances stay alive, keep their struct and keep their definition;      *)
+(* definitions are never altered, only superseded; a pointer variable      *)
+(* keeps pointing to the same instance                                     *)
 KeepsDefinition ==
     [][/\ \A k \in 1..Len(st.inst) : st.inst[k].live =>
              /\ st'.inst[k].live /\ st'.inst[k].type = st.inst[k].type
-             /\ \/ st'.inst[k].ver = st.inst[k].ver
-                \/ st'.inst[k].ver = CurVer(st, st.inst[k].type)
+             /\ st'.inst[k].ver = st.inst[k].ver /\ st'.inst[k].born = st.inst[k].ver
        /\ \A n \in Names : /\ Len(st'.reg[n]) >= Len(st.reg[n])
-                           /\ SubSeq(st'.reg[n], 1, Len(st.reg[n])) = st.reg[n]]_vars
+                           /\ SubSeq(st'.reg[n], 1, Len(st.reg[n])) = st.reg[n]
+       /\ SubSeq(st'.ptrs, 1, Len(st.ptrs)) = st.ptrs]_vars
 =============================================================================
